@@ -3,7 +3,6 @@ package gnosisslot
 import (
 	"context"
 	"crypto/ecdsa"
-	"database/sql"
 	"encoding/hex"
 	"encoding/json"
 	"fmt"
@@ -163,8 +162,8 @@ type Inst struct {
 	trig chan *broker.Event[*epochkghandler.DecryptionTrigger]
 	rec  *recMessaging
 	mw   *gnosis.MessagingMiddleware
-	hi   int                 // highest slot ticked so far (the clock), survives a restart
-	last map[int][][]byte    // identities of the last trigger emitted per eon (to build the messages that answer it)
+	hi   int              // highest slot ticked so far (the clock), survives a restart
+	last map[int][][]byte // identities of the last trigger emitted per eon (to build the messages that answer it)
 	dead bool
 }
 
@@ -943,5 +942,3 @@ func (w *World) Dead() bool {
 	}
 	return false
 }
-
-var _ = sql.NullInt64{}
